@@ -1020,6 +1020,37 @@ def run_check(run, pid):
     })
 
 
+def close_release_for_C13(run):
+    """C13 on the kqueue backend: after Close every descriptor the Watcher opened is closed (kqueue, pipe, one per watched
+    vnode) — the copied backend_kqueue.go on the simulated kernel, histories ending in Close (also Close racing a
+    directory scan).  Only the close-releases-all clause is looked at; everything else is C17's."""
+    with Lock():
+        ok, log, kqh = build_kq()
+        okd, logd, drv = build_driver()
+    if not (ok and okd):
+        run.cov["kqueue_close"] = {"note": "copied kqueue backend or driver does not build (reported by C17)", "log": (log + logd)[-600:]}
+        return
+    stats = new_stats()
+    hists = [(a, "corpus", b) for a, b in CORPUS if any(x == "api close" or x.startswith("racecl") for x in b)]
+    hists += gen_histories(run.seed + 31, 90 if run.tier == "quick" else 900, 24, stats, tag="c")
+    res = run_pipeline(kqh, drv, hists, "c13", timeout=900)
+    if res.get("error"):
+        run.cov["kqueue_close"] = {"note": "harness failed: " + res["error"][:300]}
+        return
+    closes = [m for m in res["spec"] if m["prop"] == "C17" and m["clause"] == "close-releases-all"]
+    ctx = Ctx(kqh, drv)
+    res2 = dict(res)
+    res2["spec"] = closes
+    found = triage_spec(ctx, hists, res2, "C17", max_per_group=1, max_total=6) if closes else {}
+    for key, v in sorted(found.items()):
+        run.violation("kqueue-" + key, "kqueue backend: descriptors survive Close (%s)" % v["detail"],
+                      {"kind": "spec", "clause": v["clause"], "detail": v["detail"], "minimal_history": v["steps"], "observations": v["lines"],
+                       "how": "copied backend_kqueue.go on kq/simunix; build/kq/kqh + driver/kqdriver"})
+    summ = dict(kv.split("=") for kv in res["summary"].split()[1:]) if res.get("summary") else {}
+    run.cov["kqueue_close"] = {"histories_ending_in_close": len(hists), "steps": int(summ.get("steps", 0)),
+                               "close_releases_all_violations": len(closes)}
+
+
 def check_C17(run):
     run_check(run, "C17")
 
